@@ -9,4 +9,5 @@ mkdir -p work evidence replays
 cp /repo/go.sum harness/go.sum
 ( cd harness && go test -c -tags verif -o ../work/harness.test . ) > work/setup-go.log 2>&1 || { tail -30 work/setup-go.log; exit 1; }
 ( cd tools/scan && go build -o ../../work/scan . ) > work/setup-scan.log 2>&1 || { tail -30 work/setup-scan.log; exit 1; }
+( cd tools/srcmap && go build -o ../../work/srcmap . ) > work/setup-srcmap.log 2>&1 || { tail -30 work/setup-srcmap.log; exit 1; }
 echo setup ok
